@@ -15,6 +15,8 @@ use verifsim::rng::{Fnv, Rng};
 pub const MAIN: usize = usize::MAX;
 pub const N_SITES: usize = 19;
 pub const STEP_CAP: u64 = 100_000;
+/// real-time watchdog: only trips if library code blocks on a primitive the simulator does not own
+pub const WATCHDOG_S: u64 = 4;
 
 static TURN: AtomicUsize = AtomicUsize::new(MAIN);
 static ACTIVE: AtomicBool = AtomicBool::new(false);
@@ -427,7 +429,7 @@ pub fn simulate(cfg: SimConfig, bodies: Vec<Box<dyn FnOnce() + Send + '_>>) -> S
                 std::hint::spin_loop();
             } else {
                 std::thread::yield_now();
-                if spins % 4096 == 0 && start.elapsed() > Duration::from_secs(20) {
+                if spins % 4096 == 0 && start.elapsed() > Duration::from_secs(WATCHDOG_S) {
                     watchdog = true;
                     // let everything drain without scheduling so that the scope can end
                     if let Some(st) = STATE.lock().unwrap().as_mut() {
